@@ -16,7 +16,7 @@ KINDS_PLAY = ['unparseable card', 'card held by another seat', 'card already pla
 RULE = ('simulated sessions of n = 1-5 boards (generator of C08) with exactly one fault: abort at board k (1..n), in the auction '
         'at call j or in the play at card j, by whichever seat acts there, of kind ' + ', '.join(KINDS_AUCTION + KINDS_PLAY) +
         ', or an operator interrupt (KeyboardInterrupt raised in the main thread at its j-th blocking queue read of '
-        'board k, or at its p-th blocking step of any kind - queue read, pause, arrival at a barrier - after the players are seated, where the boards finished before the abort are those whose every call and card the table manager had already received); plus, on a REAL server process running the table manager in its main thread over loopback TCP, a real SIGINT (what Ctrl-C sends) delivered while it waits for the acting seat at a generated point of board k >= 2 (8 per quick run, 400 per thorough run; a wall-clock safety net there means inconclusive). Kind and board class (first / second / last board) are drawn uniformly (class histogram in the evidence); j, '
+        'board k, or at its p-th blocking step of any kind - queue read, pause, arrival at a barrier - after the players are seated, where the boards finished before the abort are those whose every call and card the table manager had already received; or from inside the serialisation of the record of board k, where the file may hold k or k+1 boards but must be complete); plus, on a REAL server process running the table manager in its main thread over loopback TCP, a real SIGINT (what Ctrl-C sends) delivered while it waits for the acting seat at a generated point of board k >= 2 (8 per quick run, 400 per thorough run; a wall-clock safety net there means inconclusive). Kind and board class (first / second / last board) are drawn uniformly (class histogram in the evidence); j, '
         'the rest of the scenario and the thread schedule are generated. Oracle: Server.run raises; afterwards the output file parses as '
         'JSON, passes JsonParser.parse_board_logs, and holds exactly the records of boards 1..k-1 (each equal to the C08 '
         'expectation on every field) and nothing of board k. evaluations = aborted sessions. Non-trivial = abort with '
@@ -189,6 +189,27 @@ def check_session(scenario, schedule, stats=None, fault=None, real_process=False
 
         def hook(kernel):
             kernel.fault_hook = fh
+    elif fault['kind'] == 'operator interrupt while a record is written':
+        # KeyboardInterrupt raised from inside the serialisation of board k's record (json.dumps as the writer module sees
+        # it).  Board k was played to the end; whether its record still makes it into the file is not prescribed - but the
+        # file must be a complete document holding the first k or k+1 boards, each whole.
+        import types as _types
+        from bridge_env.data_handler.json_handler import writer as W
+        real_json = W.json
+        calls = [0]
+
+        def dumps(*a, **kw):
+            calls[0] += 1
+            if calls[0] - 1 == k:
+                fired.append(k)
+                raise KeyboardInterrupt()
+            return real_json.dumps(*a, **kw)
+        shim = _types.SimpleNamespace(**{n: getattr(real_json, n) for n in dir(real_json) if not n.startswith('__')})
+        shim.dumps = dumps
+
+        def hook(kernel):
+            W.json = shim
+        restore = lambda: setattr(W, 'json', real_json)
     elif fault['kind'] == 'operator interrupt':
         target = gets_before(scenario, k) + fault['pos']
         count = [0]
@@ -202,9 +223,22 @@ def check_session(scenario, schedule, stats=None, fault=None, real_process=False
 
         def hook(kernel):
             kernel.fault_hook = fh
-    r = SE.run_case(scenario, schedule, fault=None if fault['kind'].startswith('operator interrupt') else fault, kernel_hook=hook,
-                    clients_required=False)
+    try:
+        r = SE.run_case(scenario, schedule, fault=None if fault['kind'].startswith('operator interrupt') else fault, kernel_hook=hook,
+                        clients_required=False)
+    finally:
+        if fault['kind'] == 'operator interrupt while a record is written':
+            restore()
     case = SE.case_of(scenario, schedule, r, {'fault': fault})
+    either = None
+    if fault['kind'] == 'operator interrupt while a record is written':
+        if not fired:
+            # the writer did not serialise through json.dumps: nothing was interrupted
+            if stats is not None:
+                stats.excluded['record serialisation could not be interrupted (writer does not call json.dumps)'] += 1
+            SE.first_problem(SE.completion_problems(scenario, r), scenario, schedule, r)
+            return
+        either = (k, k + 1)
     if fault['kind'] == 'operator interrupt at a blocking step':
         if not fired:
             # the session had fewer blocking steps than the drawn position: nothing was interrupted
@@ -230,6 +264,8 @@ def check_session(scenario, schedule, stats=None, fault=None, real_process=False
         parsed = JsonParser().parse_board_logs(io.StringIO(text))
     except Exception as e:  # noqa
         raise Violation('after an abort the log parser rejects the output file', case, {'error': repr(e)[:200]})
+    if either is not None and len(logs) in either and len(parsed) == len(logs):
+        k = len(logs)
     check(len(logs) == k and len(parsed) == k, 'after an abort the log does not hold exactly the boards finished before it', case,
           {'in_log': len(logs), 'finished_before_abort': k})
     for i in range(k):
@@ -250,11 +286,12 @@ def check_session(scenario, schedule, stats=None, fault=None, real_process=False
 
 @st.composite
 def case_strategy(draw, min_boards=1):
-    i = draw(st.integers(0, 35))       # selects (kind, board class): all 12 kinds x {first, second, last board}
+    i = draw(st.integers(0, 38))       # selects (kind, board class): all 13 kinds x {first, second, last board}
     scenario = draw(SE.SCENARIO(min_boards, 5, 6))
     n = len(scenario['boards'])
     kinds = [('auction', x) for x in KINDS_AUCTION] + [('play', x) for x in KINDS_PLAY] + [('any', 'operator interrupt'),
-                                                                                         ('any', 'operator interrupt at a blocking step')]
+                                                                                         ('any', 'operator interrupt at a blocking step'),
+                                                                                         ('any', 'operator interrupt while a record is written')]
     # cycle deterministically through (kind, board class); fall back to the next applicable kind
     k = [0, min(1, n - 1), n - 1][(i // len(kinds)) % 3]
     jraw = draw(st.integers(0, 400))
@@ -262,6 +299,8 @@ def case_strategy(draw, min_boards=1):
         phase, kind = kinds[(i + off) % len(kinds)]
         b = scenario['boards'][k]
         played = A.result(b['dealer'], b['calls']) is not None
+        if kind == 'operator interrupt while a record is written':
+            return scenario, {'board': k, 'phase': 'any', 'pos': 0, 'kind': kind, 'seat': None}
         if kind == 'operator interrupt at a blocking step':
             # blocking steps of the main thread after seating: per board 2 barrier arrivals, one read per call, and per
             # trick one pause and four reads (as the table manager stands today; if the position lies beyond the end of
